@@ -50,6 +50,9 @@ struct Layer {
     /// oracle-only (the model has no malformed files)
     #[serde(default)]
     raw_text: Option<String>,
+    /// write `roles.primary` in its object form {provider, model, variant} (same route string)
+    #[serde(default)]
+    primary_obj: bool,
 }
 #[derive(Clone, Serialize, Deserialize, Debug, Default)]
 struct Ovr {
@@ -164,7 +167,11 @@ fn layer_json(l: &Layer) -> Value {
         root.insert("model".into(), json!(m));
     }
     if let Some(p) = &l.primary {
-        root.insert("roles".into(), json!({ "primary": p }));
+        let obj = p.split_once('/').filter(|_| l.primary_obj).map(|(prov, rest)| match rest.split_once('#') {
+            Some((m, v)) => json!({ "provider": prov, "model": m, "variant": v }),
+            None => json!({ "provider": prov, "model": rest }),
+        });
+        root.insert("roles".into(), json!({ "primary": obj.unwrap_or_else(|| json!(p)) }));
     }
     if l.stateless.is_some() || l.parallel.is_some() || l.followup.is_some() {
         let mut o = serde_json::Map::new();
@@ -690,7 +697,8 @@ fn run_once(sc: &Scenario, key: &str, hdr: &str) -> RunOut {
     let prov = provider.url.trim_end_matches("/v1/responses").to_string();
     let dead = dead_addr();
     let target = if sc.outcome == 2 { dead.clone() } else { prov.clone() };
-    let m: Vec<(&str, &str)> = vec![("{{K}}", key), ("{{H}}", hdr), ("{{P}}", &target)];
+    let rkey: String = key.chars().rev().collect();
+    let m: Vec<(&str, &str)> = vec![("{{K}}", key), ("{{R}}", &rkey), ("{{H}}", hdr), ("{{P}}", &target)];
     let c = concretise(sc, &m);
     for d in ["home/.rip", "cfghome", "custom", "outer/.git", "outer/ws", "data", "out"] {
         std::fs::create_dir_all(root.join(d)).unwrap();
@@ -1152,10 +1160,12 @@ fn gen_scenario(rng: &mut Rng, i: u64) -> Scenario {
     // every third scenario runs against the real `ripd` process (start-up path, authority lock, real HTTP)
     sc.real_authority = i % 3 == 1;
     sc.config_home = rng.chance(1, 2);
+    // the canary core at the front and its reverse at the back: a leak of a prefix or of a suffix of the key differs
+    // between the two runs (differential) even when the decoration in the middle is the same
     let key_wrapped = match rng.below(3) {
         0 => "{{K}}".to_string(),
-        1 => "sk-or-v1-{{K}}".to_string(),
-        _ => "sk+\"q\\{{K}}=/".to_string(),
+        1 => "{{K}}-sk-or-v1-{{R}}".to_string(),
+        _ => "{{K}}+\"q\\=/{{R}}".to_string(),
     };
     let hdr_secret = "tok {{H}}; v=\"1\"".to_string();
     let slot_choices: [u8; 7] = [0, 1, 2, 3, 4, 5, 6];
@@ -1178,6 +1188,7 @@ fn gen_scenario(rng: &mut Rng, i: u64) -> Scenario {
             prov.api_key = Some(KeySpec::Env(name.into()));
             sc.env.push((name.into(), key_wrapped.clone()));
             base.primary = Some(route.clone());
+            base.primary_obj = rng.chance(1, 2);
         }
         2 => {
             sc.channel = "env-fallback-generic".into();
